@@ -53,6 +53,90 @@ theorem casts_recognised : recognises Spec.casts 36 = true := by decide +kernel
 
 theorem operators_recognised : recognises Spec.operators 36 = true := by decide +kernel
 
+/-! ### Whitespace in PHP mode is skipped and changes nothing (C08, scanner half, first part) -/
+
+/-- blank, tab, vertical tab, form feed, LF (a CR is the subject of a known finding: alone it is reported as an
+    unexpected character) -/
+def wsBytes : List Nat := [9, 10, 11, 12, 32]
+def isSpaceByte (b : Nat) : Bool := wsBytes.contains b || b == 13
+/-- the states the scanner is in while it reads such a run -/
+def wsStates : List Nat := [124, 125]
+def tWhitespace : Nat := 57416
+
+def trOf (t : Nat) : Option TrInfo := Gen.trInfos.find? (fun x => x.id == t)
+
+/-- the state a transition target leads to when it is a state, or a block that neither returns a token, nor
+    attaches one, nor gives bytes back -/
+def quietLanding (t : Nat) : Option Nat :=
+  if t == 0 then none
+  else if t < 10000 then some t
+  else match trOf t with
+    | some ti => if !ti.emits && ti.ffs.isEmpty && !ti.hold && ti.next != 0 then some ti.next else none
+    | none => none
+
+/-- the block that ends a whitespace run: attaches one T_WHITESPACE, gives the byte back, continues in the start state -/
+def wsExit (t : Nat) : Bool :=
+  match trOf t with
+  | some ti => !ti.emits && ti.ffs == [tWhitespace] && ti.hold && ti.next == phpStart
+  | none => false
+
+def rowsOfState (st : Nat) : List DFARow := Gen.dfaRows.filter (fun r => r.state == st)
+
+/-- OBLIGATIONS (kernel-evaluated on the regenerated table, every outcome of the conditions) -/
+theorem ws_enter : (rowsOfState phpStart).all (fun r => wsBytes.all (fun b =>
+    match quietLanding (r.target b) with | some s => wsStates.contains s | none => false)) = true := by decide +kernel
+theorem ws_loop : wsStates.all (fun st => (rowsOfState st).all (fun r => wsBytes.all (fun b =>
+    match quietLanding (r.target b) with | some s => wsStates.contains s | none => false))) = true := by decide +kernel
+theorem ws_exit : wsStates.all (fun st => (rowsOfState st).all (fun r => (List.range 256).all (fun b =>
+    isSpaceByte b || wsExit (r.target b)))) = true := by decide +kernel
+theorem ws_rows_exist : (phpStart :: wsStates).all (fun st => !(rowsOfState st).isEmpty) = true := by decide +kernel
+
+/-- reading a run of whitespace bytes from state `st`, by any rows of the states passed through -/
+inductive WsRun : Nat → List Nat → Nat → Prop where
+  | nil (st : Nat) : WsRun st [] st
+  | cons (st b st' st'' : Nat) (r : DFARow) (w : List Nat) : r ∈ rowsOfState st → quietLanding (r.target b) = some st' →
+      WsRun st' w st'' → WsRun st (b :: w) st''
+
+/-- C08, scanner half, whitespace in PHP mode: a run of blanks, tabs, VT, FF and LF — however long, whatever
+    the scanner's conditions answer along the way — is read without returning or attaching anything and
+    leaves the scanner in one of two states, from which any non-space byte `b` makes it attach exactly
+    one T_WHITESPACE, hand `b` back and continue in its start state: the token that begins at `b` is
+    scanned from the same state as if the run were not there. -/
+theorem whitespace_run_is_skipped (w : List Nat) (hw : ∀ b ∈ w, b ∈ wsBytes) (hne : w ≠ []) :
+    ∀ st', WsRun phpStart w st' → st' ∈ wsStates ∧
+      ∀ r ∈ rowsOfState st', ∀ b, b < 256 → isSpaceByte b = false → wsExit (r.target b) = true := by
+  have loop : ∀ (w : List Nat) (st st' : Nat), (∀ b ∈ w, b ∈ wsBytes) → st ∈ wsStates → WsRun st w st' → st' ∈ wsStates := by
+    intro w
+    induction w with
+    | nil => intro st st' _ hst h; cases h; exact hst
+    | cons b w ih =>
+      intro st st' hb hst h
+      cases h with
+      | cons _ _ s1 _ r _ hr hl hrest =>
+        have h1 := List.all_eq_true.mp ws_loop st hst
+        have h2 := List.all_eq_true.mp h1 r hr
+        have h3 := List.all_eq_true.mp h2 b (hb b (List.mem_cons_self ..))
+        rw [hl] at h3
+        have hs1 : s1 ∈ wsStates := by simpa using h3
+        exact ih s1 st' (fun x hx => hb x (List.mem_cons_of_mem _ hx)) hs1 hrest
+  intro st' hrun
+  cases w with
+  | nil => exact absurd rfl hne
+  | cons b w =>
+    cases hrun with
+    | cons _ _ s1 _ r _ hr hl hrest =>
+      have h2 := List.all_eq_true.mp ws_enter r hr
+      have h3 := List.all_eq_true.mp h2 b (hw b (List.mem_cons_self ..))
+      rw [hl] at h3
+      have hs1 : s1 ∈ wsStates := by simpa using h3
+      have hst' := loop w s1 st' (fun x hx => hw x (List.mem_cons_of_mem _ hx)) hs1 hrest
+      refine ⟨hst', ?_⟩
+      intro r' hr' b' hb' hsp
+      have e1 := List.all_eq_true.mp ws_exit st' hst'
+      have e2 := List.all_eq_true.mp e1 r' hr'
+      have e3 := List.all_eq_true.mp e2 b' (List.mem_range.mpr hb')
+      simpa [hsp] using e3
+
 /- non-vacuity -/
 example : recognises [(bytes! "iff", nm! "T_IF")] 40 = false := by decide +kernel
 example : recognises [(bytes! "if", nm! "T_ELSE")] 40 = false := by decide +kernel
